@@ -371,6 +371,12 @@ func DrawMuxSpecOpt(t *sim.Tape, av bool) (*MuxSpec, error) {
 				sm.Sync = !tr.Stss || k%gop == 0
 				if irregular {
 					sm.Sync = k == 0 || t.Chance(250)
+					if k == 0 && n > 2 && t.Chance(200) {
+						sm.Sync = false // the stream was cut before its first key frame (open start)
+					}
+					if k == 1 && !tr.Samples[0].Sync {
+						sm.Sync = true
+					}
 				}
 				if tr.CttsVer >= 0 {
 					sm.Cto = int32(t.Draw(4)) * int32(baseDur)
